@@ -17,8 +17,9 @@ class Preemptor:
     """suspends the job pass of one node at the p-th executed source line (p symbolic) and lets the rest of the
     system - including frame reception on the same stack - run for the hold time"""
 
-    def __init__(self, ex, w, node, hold, budget=1):
+    def __init__(self, ex, w, node, hold, budget=1, during_hold=None):
         self.ex, self.w, self.node, self.hold, self.budget = ex, w, node, hold, budget
+        self.during_hold = during_hold      # application action performed while the job thread is held
         self.count = 0
         self.fired = 0
         self.where = []
@@ -57,6 +58,8 @@ class Preemptor:
             sys.settrace(None)
             self.node.held = True
             try:
+                if self.during_hold is not None:
+                    self.during_hold()
                 self.w.run(until=self.w.now + self.hold)
             finally:
                 self.node.held = False
@@ -64,7 +67,9 @@ class Preemptor:
         return self.local_trace
 
 
-def h_preempt(ex, dll, L, kind, victim, windows=(1, 1), hold='1/1000', two=False):
+def h_preempt(ex, dll, L, kind, victim, windows=(1, 1), hold='1/1000', two=False, app_send=None):
+    """app_send: kind of a second message ('p2p' | 'pdu2') that the APPLICATION thread submits on the victim stack while
+    its job thread is held (send_pgn racing the job pass)"""
     w = W.World(ex, mode='interleave')
     w.branching = False          # the pre-emption point is the schedule variable here
     sa = Stack(w, 'A', A, dll=dll, max_cmdt_packets=windows[0])
@@ -73,7 +78,13 @@ def h_preempt(ex, dll, L, kind, victim, windows=(1, 1), hold='1/1000', two=False
     by_addr = {s.addr: s for s in stacks}
     w.run(until=T('1/100'))
     node = (sa if victim == 'A' else sb).node
-    pre = Preemptor(ex, w, node, Fraction(hold), 2 if two else 1)
+    second = {'ret': None, 'msg': None}
+
+    def submit_second():
+        m2 = Msg(ex, 'n', sa, sb, L + 3, app_send, dll)
+        second['msg'] = m2
+        second['ret'] = m2.send()
+    pre = Preemptor(ex, w, node, Fraction(hold), 2 if two else 1, during_hold=submit_second if app_send else None)
     m = Msg(ex, 'm', sa, sb, L, kind, dll)
     # keep the PGN concrete: the pre-emption point is what is explored
     r = m.send()
@@ -83,9 +94,16 @@ def h_preempt(ex, dll, L, kind, victim, windows=(1, 1), hold='1/1000', two=False
     w.run(until=w.now + T(8) + Fraction(6, 100) * npk)
     info = {'victim': victim, 'preempted_at': pre.where, 'lines_executed': pre.count}
     ex.claim('job_threads_alive', sa.alive() and sb.alive(), dict(info, dead=[repr(s.node.dead) for s in stacks if s.node.dead], spin=[s.name for s in stacks if s.node.spin]))
+    expect = [m]
+    if second['msg'] is not None:
+        # J1939-21 allows one transfer per pair: the second call may be refused (False) while the first is in progress
+        if second['ret'] is True:
+            expect.append(second['msg'])
+        else:
+            ex.claim('app_send.refusal_is_false', second['ret'] is False and dll == 'j1939-21', dict(info, returned=second['ret']))
     ok = True
     for s in stacks:
-        ok = check_listener(ex, s, s.rx, by_addr, [m], 'ca', dll) and ok
+        ok = check_listener(ex, s, s.rx, by_addr, expect, 'ca', dll) and ok
     ex.claim('no_notify_exception', all(not s.node.notify_errors for s in stacks), dict(info, errors=[repr(e) for s in stacks for e in s.node.notify_errors][:2]))
     if pre.fired == 0:
         ex.note('pre-emption index beyond the last executed line on some paths (fault-free baseline)')
@@ -104,6 +122,12 @@ def h_preempt(ex, dll, L, kind, victim, windows=(1, 1), hold='1/1000', two=False
     for s in stacks:
         check_listener(ex, s, s.rx, by_addr, [f], 'followup', dll)
     ex.claim('followup.job_threads_alive', sa.alive() and sb.alive(), info)
+    if dll != 'j1939-21' and app_send:
+        # the originator pools are complete: 8 RTS/CTS (4 BAM) sessions can be started at once
+        n_more = 4 if kind != 'p2p' else 8
+        extra = [sa.ca.send_pgn(0, 0xFE if kind != 'p2p' else 0xD5, (0x60 + j) if kind != 'p2p' else B, 6, [j] * (75 + j)) for j in range(n_more)]
+        ex.claim('app_send.full_capacity_afterwards', all(r is True for r in extra), dict(info, accepted=extra.count(True), wanted=n_more))
+        w.run(until=w.now + T(4))
     ex.observe('bus', log_digest(w))
     ex.observe('where', pre.where)
     ex.witness()
@@ -128,6 +152,10 @@ def jobs(tier):
                     J(dll=dll, L=L, kind='pdu2', victim=victim)
         J(dll=dll, L=seg * 3 - 2, kind='p2p', victim='A', windows=[2, 2], hold='5/1000')
         J(dll=dll, L=seg * 3 - 2, kind='p2p', victim='B', windows=[1, 1], hold='1/5000')
+        # the application submits a second message on the victim stack while its job thread is held
+        J(dll=dll, L=seg * 2 - 2, kind='pdu2', victim='A', app_send='pdu2')
+        J(dll=dll, L=seg * 2 - 2, kind='p2p', victim='A', windows=[1, 1], app_send='p2p')
+        J(dll=dll, L=seg * 2 - 2, kind='p2p', victim='A', windows=[2, 2], app_send='pdu2')
         if not q:
             for victim in ('A', 'B'):
                 J(dll=dll, L=seg * 3 - 2, kind='p2p', victim=victim, windows=[1, 1], two=True, wall=6000)
@@ -139,7 +167,7 @@ def meta(tier):
         'bounds': ['pre-emption point: every executed source line (sys.settrace line events in /repo/j1939 frames) of the chosen node\'s job passes during one transfer, enumerated exhaustively as a schedule choice (one pre-emption per run; thorough: every pair for one shape)',
                    'while the job thread is held, the rest of the system - the peer stack and frame reception on the held stack - runs until nothing more is enabled, for a hold time of 0.2 / 1 / 5 ms',
                    'RTS/CTS and BAM, J1939-21 and J1939-22, ' + ('3 and 5' if tier == 'quick' else '3, 5, 8, 12') + ' packets/segments, windows 1, 2, all; payload and PGN fields symbolic',
-                   'oracle: C01/C02 delivery oracle, job threads alive, follow-up transfer'],
+                   'oracle: C01/C02 delivery oracle, job threads alive, follow-up transfer', 'additional shape: the application thread submits a second message on the held stack during the hold (send_pgn racing the job pass); both are delivered, capacity complete afterwards'],
         'outside': ['pre-emption inside a source line', 'partial progress of the rest of the system during the hold (only maximal progress is explored)', 'more than two pre-emptions'],
         'assumptions': ['every such interleaving is realisable under the GIL (line boundaries are bytecode boundaries)'],
     }
